@@ -168,7 +168,7 @@ func (r *registry) handleBlobMount(ctx context.Context, resp http.ResponseWriter
 	if err != nil {
 		return err
 	}
-	if err := r.setLocationHeader(resp, true, desc, "/v2/"+rreq.Repo+"/blobs/"+rreq.Digest); err != nil {
+	if err := r.setLocationHeader(resp, false, desc, "/v2/"+rreq.Repo+"/blobs/"+rreq.Digest); err != nil {
 		return err
 	}
 	resp.WriteHeader(http.StatusCreated)
@@ -203,7 +203,7 @@ func (r *registry) handleManifestPut(ctx context.Context, resp http.ResponseWrit
 	if err != nil {
 		return err
 	}
-	if err := r.setLocationHeader(resp, false, desc, "/v2/"+rreq.Repo+"/manifests/"+string(desc.Digest)); err != nil {
+	if err := r.setLocationHeader(resp, true, desc, "/v2/"+rreq.Repo+"/manifests/"+string(desc.Digest)); err != nil {
 		return err
 	}
 	if subjectDesc != nil {
